@@ -146,6 +146,38 @@ fn workload(m: &mut Mon, bits: usize) {
             }
         }
     }
+    // Operands around half the width (where a single-width product first stops fitting) against moduli of
+    // every length class that do not divide 2^BITS: the boundary any "small operands" fast path must get right.
+    if bits >= 4 {
+        let mut r = m.stream("c10.halfwidth", bits);
+        let lens = [bits / 2 - 1, bits / 2, bits / 2 + 1, (bits + 1) / 2, bits - 1, bits];
+        for _ in 0..m.iters(if bits <= 512 { 400 } else { 60 }) {
+            if !m.keep() {
+                continue;
+            }
+            let la = *r.pick(&lens);
+            let lb = *r.pick(&lens);
+            let a = gen::with_bit_len(&mut r, la.max(1), bits);
+            let b = if r.chance(1, 3) { gen::ones(lb.max(1), bits) } else { gen::with_bit_len(&mut r, lb.max(1), bits) };
+            let lm = match r.below(4) {
+                0 => r.range(2, (bits / 2).max(2)),
+                1 => *r.pick(&lens),
+                2 => bits,
+                _ => r.range(2, bits),
+            };
+            let mut md = gen::with_bit_len(&mut r, lm.max(2), bits);
+            md[0] |= 1; // odd, so it never divides 2^BITS
+            m.case("mod3", bits, vec![au(&a), au(&b), au(&md)]);
+            let e = match r.below(3) {
+                0 => gen::small(2 + r.below(6) as u64, bits),
+                1 => gen::small(gen::alpha_limb(&mut r) >> r.below(60), bits),
+                _ => b.clone(),
+            };
+            if bits <= 512 || r.chance(1, 8) {
+                m.case("pow_mod", bits, vec![au(&a), au(&e), au(&md)]);
+            }
+        }
+    }
     // random
     let mut r = m.stream("c10.random", bits);
     let iters = m.iters(if bits <= 256 { 4000 } else if bits <= 1024 { 1200 } else { 250 });
